@@ -534,6 +534,17 @@ def known_findings():
 OBSERVED_PROPS = {"C01", "C02", "C04", "C06", "C07", "C08", "C09", "C10", "C11", "C12", "C14", "C15", "C16", "C17"}
 
 
+def extra_modules(prop):
+    """Properties_Observers is table-independent and belongs to every observer property; its
+    instantiation with the measured tables belongs to the two properties about those tables"""
+    out = []
+    if prop in OBSERVED_PROPS:
+        out.append("Properties_Observers")
+    if prop in ("C11", "C16"):
+        out.append("Properties_ObserversInst")
+    return out
+
+
 def theorem_info(prop):
     """obligations = theorems/lemmas/examples stated in Properties_<prop>.v"""
     p = os.path.join(VERIF, "coq", "Properties_%s.v" % prop)
@@ -541,9 +552,9 @@ def theorem_info(prop):
         return []
     text = re.sub(r"\(\*.*?\*\)", "", open(p).read(), flags=re.S)
     names = re.findall(r"^\s*(?:Theorem|Lemma|Corollary|Example)\s+(\w+)", text, flags=re.M)
-    if prop in OBSERVED_PROPS:
+    for extra in extra_modules(prop):
         # the observer this check evaluates on the library is proved of the model for every script
-        q = os.path.join(VERIF, "coq", "Properties_Observers.v")
+        q = os.path.join(VERIF, "coq", extra + ".v")
         t2 = re.sub(r"\(\*.*?\*\)", "", open(q).read(), flags=re.S)
         names += re.findall(r"^\s*(?:Theorem|Lemma|Corollary|Example)\s+(\w+)", t2, flags=re.M)
     return names
@@ -578,7 +589,7 @@ def check_property(prop, tier, seed):
             build_failed = (ex.stage, ex.detail)
         if not build_failed:
             target = "Properties_%s.vo" % prop
-            ok, coq_log = coq_make([target] + (["Properties_Observers.vo"] if prop in OBSERVED_PROPS else []))
+            ok, coq_log = coq_make([target] + [m + ".vo" for m in extra_modules(prop)])
             if ok:
                 discharged = len(obligations)
             else:
@@ -598,7 +609,7 @@ def check_property(prop, tier, seed):
         try:
             with Lock("build"):
                 af = os.path.join(COQB, "Assum_%s.v" % prop)
-                mods = ["Properties_%s" % prop] + (["Properties_Observers"] if prop in OBSERVED_PROPS else [])
+                mods = ["Properties_%s" % prop] + extra_modules(prop)
                 with open(af, "w") as f:
                     f.write("Require Import %s.\n" % " ".join("RDS." + m for m in mods))
                     for t in obligations:
